@@ -94,7 +94,12 @@ def identical(a, b):
     if a is None or b is None:
         return a is None and b is None
     if isinstance(a, (SList, SDict, SObj, SOpaque, SSet)) or isinstance(b, (SList, SDict, SObj, SOpaque, SSet)):
-        return a is b
+        # a snapshot taken for old(...) stands for the object it was copied from
+        a0 = getattr(a, 'origin', None) or a
+        b0 = getattr(b, 'origin', None) or b
+        return a0 is b0
+    if type(a).__name__ == 'PyOpaque' or type(b).__name__ == 'PyOpaque':
+        return type(a) is type(b) and a.obj is b.obj
     if isinstance(a, bool) and isinstance(b, bool):
         return a == b
     if isinstance(a, SBool) and isinstance(b, bool):
